@@ -64,6 +64,22 @@ Proof.
     + intros b v. unfold wbit. now rewrite get_upd_other by (intro; apply H; now left).
 Qed.
 
+(* inverse of a gate list of this alphabet: reversed order, negated exponents *)
+Definition linv (g : lg) : lg := LG (gc g) (gt g) (- gz g)%Z.
+Definition linv_list (l : list lg) : list lg := rev (map linv l).
+Lemma lapp_linv g psi : gc g <> gt g -> lapp (linv g) (lapp g psi) = psi.
+Proof.
+  intros W. rewrite !lapp_WG. cbn [linv gt gc gz]. rewrite WG_WG.
+  - apply WG_0. intros b. unfold wbit. destruct (get b (gc g)); ring.
+  - intros b v. unfold wbit. now rewrite get_upd_other by auto.
+Qed.
+Theorem linverse_right l : Forall (fun g => gc g <> gt g) l -> forall psi, lrun (l ++ linv_list l) psi = psi.
+Proof.
+  induction 1 as [|g l Hg Hl IH]; intros psi. reflexivity.
+  unfold linv_list. cbn [map rev]. rewrite <- app_comm_cons, lrun_cons, app_assoc, lrun_app.
+  fold (linv_list l). rewrite IH. cbn [lrun fold_left]. now apply lapp_linv.
+Qed.
+
 (* ---------- the cascade ---------- *)
 Definition ones (j : nat) (b : asg) : bool := forallb (fun i => get b i) (seq 0 j).
 Lemma ones_S j b : ones (S j) b = ones j b && get b j.
